@@ -932,7 +932,8 @@ class MultipleTableCoordinate(BaseTableCoordinate):
         dropped_world_dimensions["world_axis_object_classes"] = dict()
 
         # Combine the dicts on the tables with our dict
-        for lutc in self._table_coords:
+        # (tables that have since been dropped as a whole may have lost components earlier)
+        for lutc in self._table_coords + list(self._dropped_coords):
             for key, value in lutc.dropped_world_dimensions.items():
                 if key == "world_axis_object_classes":
                     dropped_world_dimensions[key].update(value)
